@@ -79,7 +79,7 @@ def objItems (pat : List Char) : List Nat := List.range pat.length
 def seqLine (impl : String) (pat : List Char) (view : String) : String :=
   match impl with
   | "ref" | "decl" => viewLine "e" (buildRef pat).1.view
-  | "warehouse" | "warehouse-product" =>
+  | "warehouse" | "warehouse-product" | "warehouse-sum" =>
     let lead := (pat.takeWhile (· == 'u')).length
     viewLine "e" (Warehouse.build lead (List.range (pat.length - lead))).view
   | "objseq" => viewLine "e" ((objItems pat).foldl ObjSeq.pushBack ({} : ObjSeq Nat)).view
